@@ -4,7 +4,8 @@ From NV.C01 Require Import Model LogList VoteSim LogMatch Commit Safety Inst.
 From NV.gen Require Import Gen_C01.
 Open Scope N_scope.
 
-Definition gen_rules : rules := Rules gen_follower_ack gen_follower_commit gen_stale_ack_ignored.
+Definition gen_rules : rules :=
+  Rules gen_follower_ack gen_follower_commit gen_stale_ack_ignored gen_vote_log_ok gen_prev_ok gen_commit_pick gen_commit_term_ok.
 (* a cluster of n >= 1 voters whose quorum is the one the code computes *)
 Definition cluster (n : N) (ab : bool) (mp : N) : config := Cfg n (gen_quorum n) ab mp.
 
@@ -30,7 +31,7 @@ Theorem C01_log_matching : forall n ab mp ops i j k t,
   term_at (log (nth_node (nodes s) j)) k = Some t ->
   firstn k (log (nth_node (nodes s) i)) = firstn k (log (nth_node (nodes s) j)).
 Proof.
-  intros n ab mp. apply log_matching. cbn [cluster n_nodes quorum].
+  intros n ab mp. apply log_matching; [|apply gen_prev_sound]. cbn [cluster n_nodes quorum].
   pose proof (gen_quorum_majority n). lia.
 Qed.
 
@@ -40,7 +41,7 @@ Theorem C01_logs_well_formed : forall n ab mp ops i,
   WI (log (nth_node (nodes s) i)) /\
   forall e, In e (log (nth_node (nodes s) i)) -> eterm e <= term (nth_node (nodes s) i).
 Proof.
-  intros n ab mp. apply logs_well_formed. cbn [cluster n_nodes quorum].
+  intros n ab mp. apply logs_well_formed; [|apply gen_prev_sound]. cbn [cluster n_nodes quorum].
   pose proof (gen_quorum_majority n). lia.
 Qed.
 
@@ -63,6 +64,8 @@ Proof.
   intros n ab mp ops. apply (leader_completeness (cluster n ab mp) gen_rules).
   - cbn [cluster n_nodes quorum]. pose proof (gen_quorum_majority n). lia.
   - intros p ln len. apply gen_ack_verified.
+  - apply gen_prev_sound.
+  - apply gen_vote_up_to_date.
 Qed.
 
 (* STATE-MACHINE SAFETY ("once any node reports a log position as committed, no node ever reports a
@@ -86,6 +89,10 @@ Proof.
   - cbn [cfg cluster n_nodes quorum]. pose proof (gen_quorum_within n). lia.
   - intros p ln len. apply gen_ack_verified.
   - intros lc c p ln len. apply gen_commit_verified.
+  - apply gen_prev_sound.
+  - apply gen_vote_up_to_date.
+  - apply gen_pick_quorum.
+  - apply gen_commit_current_term.
 Qed.
 
 (* ... "and every later leader's log contains that entry": if node i's commit index is at least k after ops1,
@@ -106,6 +113,10 @@ Proof.
   - cbn [cfg cluster n_nodes quorum]. pose proof (gen_quorum_within n). lia.
   - intros p ln len. apply gen_ack_verified.
   - intros lc c0 p ln len. apply gen_commit_verified.
+  - apply gen_prev_sound.
+  - apply gen_vote_up_to_date.
+  - apply gen_pick_quorum.
+  - apply gen_commit_current_term.
 Qed.
 
 (* non-vacuity: a concrete 3-node schedule elects a leader and replicates an entry *)
